@@ -174,6 +174,9 @@ func genC22(g *Gen, tier string, w *bufio.Writer) {
 	fmt.Fprintf(w, "run\n")
 	fmt.Fprintf(w, "run W3\n")
 	fmt.Fprintf(w, "run R2 i1 s61 + z ; R2 i1 s61 - z\n")
+	fmt.Fprintf(w, "run R2 i1 s61 + 1 ; R2 i1 s62 + 1 ; R2 i1 s62 - 1 ; W5\n") // rows that agree on the first column only
+	fmt.Fprintf(w, "run R1 i1 + 1 ; R1 i1 + 5 ; W5 ; R1 i1 - 6 ; W5 ; R1 i1 + 2 ; W6\n") // et == W, repeated watermark, late record
+	fmt.Fprintf(w, "fail 3 R1 i1 + 1 ; R1 i1 + 9 ; W5 ; R1 i2 + 2 ; W10\n")
 
 	// exhaustive small universe: 2 rows x {+,-} x 3 event times, 3 watermark values
 	var alphabet []string
